@@ -464,11 +464,16 @@ impl<'a> Iterator for EFIMemoryAreaIter<'a> {
 
         Some(desc)
     }
+
+    fn size_hint(&self) -> (usize, Option<usize>) {
+        let remaining = self.entries - self.i;
+        (remaining, Some(remaining))
+    }
 }
 
 impl ExactSizeIterator for EFIMemoryAreaIter<'_> {
     fn len(&self) -> usize {
-        self.entries
+        self.entries - self.i
     }
 }
 
